@@ -356,14 +356,14 @@ func (i *Domain) approximateStamp(
 		// No earlier domain: the lower bound lies before all data.
 		return Between(telem.TimeStampMin, upperTS), nil
 	}
-	if err = r.Close(); err != nil {
+	// r belongs to the caller, which closes it; the reader on the previous domain is
+	// opened, used and closed here.
+	prev, err := iter.OpenReader(ctx)
+	if err != nil {
 		return TimeStampApproximation{}, err
 	}
-	if r, err = iter.OpenReader(ctx); err != nil {
-		return TimeStampApproximation{}, err
-	}
-	lowerTS, err := readStamp(r, iter.Size()+lowerTSByteOffset)
-	return Between(lowerTS, upperTS), err
+	lowerTS, err := readStamp(prev, iter.Size()+lowerTSByteOffset)
+	return Between(lowerTS, upperTS), errors.Combine(err, prev.Close())
 }
 
 // BackwardStamp calculates an approximate starting timestamp for a range given a known distance
